@@ -1753,6 +1753,26 @@ fn resolve_mark_oid(
     }
 }
 
+#[cfg(feature = "verif-hooks")]
+pub mod verif {
+    //! Wrappers used by the verification harness (cargo feature `verif-hooks`).
+    use super::*;
+
+    pub fn rewrite_timestamp_line(line: &[u8], opts: &Options) -> Vec<u8> {
+        super::rewrite_timestamp_line(line, opts)
+    }
+
+    /// `StripShaLookup::from_path(path)` then `contains_hex` for every query.
+    pub fn strip_sha_lookup(path: &Path, queries: &[Vec<u8>]) -> io::Result<Vec<bool>> {
+        let lookup = StripShaLookup::from_path(path)?;
+        let mut out = Vec::with_capacity(queries.len());
+        for q in queries {
+            out.push(lookup.contains_hex(q)?);
+        }
+        Ok(out)
+    }
+}
+
 #[cfg(test)]
 mod tests {
     use super::*;
